@@ -228,6 +228,17 @@ def gateMethod (b : Body) : Option String := decodeMethod clientRequest b
 /-- `req.ServiceMethod` after `serverCodec.ReadRequestHeader`; `none` = decode error, nothing is dispatched. -/
 def dispatchMethod (b : Body) : Option String := decodeMethod serverRequest b
 
+/-- `net/rpc` `readRequestHeader`: `dot := strings.LastIndex(ServiceMethod, ".")`; no dot = ill-formed request,
+else the receiver method looked up is `ServiceMethod[dot+1:]`. -/
+def afterLastDot : List Char → Option (List Char)
+  | [] => none
+  | c :: cs =>
+    match afterLastDot cs with
+    | some r => some r
+    | none => if c == '.' then some cs else none
+
+def rpcMethodName (m : String) : Option String := (afterLastDot m.toList).map String.ofList
+
 /-- `c.req.Params != nil` in `ReadRequestBody` (a missing / nulled `params` aborts the call before the method runs). -/
 def dispatchHasParams : Body → Bool
   | .obj ms => (fieldVal serverRequest "params" ms).isSome
